@@ -121,7 +121,7 @@ class DefUse:
             if k == "deref":
                 t = t[1] if t[0] == "ref" else ("deref", t)
             elif k == "field":
-                t = _project_field(t, p["n"])
+                t = _project_field(t, p["n"], p.get("of", ""))
             elif k == "downcast":
                 t = ("downcast", t, p["v"])
             elif k == "index":
@@ -209,7 +209,7 @@ class DefUse:
         return out
 
 
-def _project_field(t, name):
+def _project_field(t, name, owner=""):
     """field projection with constant folding through tuple / struct aggregates"""
     inner = t
     while inner[0] == "var":
@@ -220,7 +220,7 @@ def _project_field(t, name):
         i = inner[4].index(name)
         if i < len(inner[3]):
             return inner[3][i]
-    return ("field", t, name)
+    return ("field", t, name, owner)
 
 
 def du_of(body):
